@@ -712,11 +712,14 @@ def driver_exits(fn, roles, uses_context, what, bad):
         for s in p.steps:
             if s[0] == 'LOOP' and s[1] is roles.loop_node:
                 lid = s[3]
-    V = ('PHI', v, lid)
-    st = ('SUB', V, ('CONST', '0'))
+    finals = getattr(roles, 'final', None) or {('PHI', v, lid)}
     n = 0
     for p in roles.paths:
-        dec = [t for t in p.tests() if t[1] == st]
+        dec, V = [], None
+        for cand in finals:
+            d = [t for t in p.tests() if t[1] == ('SUB', cand, ('CONST', '0'))]
+            if d:
+                dec, V = d, cand
         if len(dec) != 1:
             raise AnalysisError(f'{what}: the driver does not decide on the status after the loop')
         n += 1
